@@ -13,6 +13,8 @@
 From Coq Require Import List Reals.
 From ML Require Import Ops Vec VecR MatR LinAlg Mahalanobis MahalanobisR C09Proof CovProof.
 From ML Require Import PinsC09.
+From ML Require Import NPNum C09Src.
+From MLgen Require Import Src_rca.
 Import ListNotations.
 Open Scope R_scope.
 
@@ -37,3 +39,19 @@ Print Assumptions C09_covariance_is_variance.
 (* text-level tie: the functions this property's hand-written model and harness were written from are unchanged
    (digests regenerated from /repo on every run; Proofs/PinsC09.v) *)
 Definition C09_source_pins := pins_C09_ok.
+
+(* the translated source (gen/Src_rca.v), dimension-reducing branch of RCA.fit: for EVERY choice of directions A (d x k) and
+   every k x k matrix W, entry (a, b) of L C L^T for the translated components L = W A^T is entry (a, b) of W C' W^T with the
+   translated reduced covariance C' = A^T C A.  So whenever the inverse-square-root oracle whitens C' the learned
+   transformation makes the within-chunk covariance of the transformed data the identity on the retained directions. *)
+Definition C09_source_stmt : Prop :=
+  forall d k (A C W : Rm) (a b : nat),
+    A <> [] -> length A = d -> Forall (wfvR k) A -> wfmR d d C -> Forall (wfvR k) W -> (a < length W)%nat -> (b < length W)%nat ->
+    let L := @rca_reduced_components ROps W A in
+    vdotR (nth a L []) (mvmulR C (nth b L [])) =
+    vdotR (nth a W []) (mvmulR (@rca_reduced_cov ROps A C) (nth b W [])).
+
+Theorem C09_source : C09_source_stmt.
+Proof. exact rca_reduced_whitening. Qed.
+Print Assumptions C09_source.
+Definition C09_source_skeleton := rca_skeleton_ok.
